@@ -20,4 +20,10 @@ def P.stackFrames? (p : P) (h : TH) : Option (List Nat) :=
   | some th => walk th.stacks.prefixes th.stacks.frames (h.2 + 1) h.2
   | none => none
 
+/-- the frame list of "`parent` followed by frame `f`" in state `p` -/
+def P.extendFrames? (p : P) (parent : Option TH) (f : Nat) : Option (List Nat) :=
+  match parent with
+  | none => some [f]
+  | some par => (p.stackFrames? par).map (· ++ [f])
+
 end PT
